@@ -5572,6 +5572,10 @@ class CodegenCtx:
             size_str = self._generate_buflike_length_expr(intexpr.ref)
             if ProgramData.do(ProgramFlag.UNSAFE_STRING_INDEXING):
                 return text
+            # A string allocated on demand has no buffer until it is first written (or again after a freeing delete): reads as 0
+            if (ProgramData.do(ProgramFlag.ALLOCATE_STR_SPACE_DYNAMIC_ON_DEMAND) and self._is_dynamic(intexpr.ref) and
+                    (intexpr.ref.default_value is None or ProgramData.do(ProgramFlag.DELETE_STRING_FREE_MEMORY))):
+                return f"((state->c.{intexpr.ref.name} && ({index}) >= 0 && ({index}) < {size_str}) ? {text} : 0)"
             return f"((({index}) >= 0 && ({index}) < {size_str}) ? {text} : 0)"
         elif isinstance(intexpr, LastCharIntegerExpr):
             return f"(inval)" # name of the last character value
